@@ -218,7 +218,13 @@ CHECKS = {
          "(groups_partition, groups_strongly_connected, same_group_iff_mutual), that G_new is the acyclic condensation, that scc_schedule holds every group once with every edge forward "
          "(so the code's assert cannot fail) and that the expanded schedule satisfies the entries-topological hypothesis of whole_schedule (entries_topological); fuel never decides "
          "(fuel_sufficient). Tied to the code by exact comparison with the real kosaraju_scc on 1500 random graphs per quick run and on the calls recorded inside "
-         "DynamicSchedulePass / Mamba2020Pass / OpenLoopCLPass on generated designs, plus an independent Tarjan oracle.",
+         "DynamicSchedulePass / Mamba2020Pass / OpenLoopCLPass on generated designs, plus an independent Tarjan oracle. The SHAPE of the generated super-block loop is inside the model too "
+         "(Model/LoopIR.lean, Props/C11w.lean): a small IR (bound test before / after the sweep, per-variable == / != literals joined by and / or, break / continue / raise) with an executable "
+         "semantics; run_eq_iterate proves that every IR of the normal class IR.ok equals iterate at fuel 100 (Dynamic / Mamba) or 101 (OpenLoop), so stable_is_fixed_point, "
+         "false_loop_eq_acyclic and never-hangs transfer to what the wrapper text says (ok_*), and three shapes outside the class carry counter-example theorems (allChanged_returns_unstable, "
+         "breakOnChange_returns_unstable, unbounded_never_raises / unbounded_hangs); on every run the real wrapped_SCC source of all three generators is parsed into the IR and pv_loopir "
+         "evaluates IR.ok / fuel / compared variables (which must equal the snapshotted ones). An open-loop stream simulates every cyclic kind as a method-driven top under GenDAGPass + "
+         "OpenLoopCLPass with partial input changes between transactions (fixed point after every transaction, equality with the acyclic reference, UpblkCyclicError when due within 101 sweeps, hang guard).",
          "Trusted: as C01; watch list read from generated source by rtlgen.parse_scc; Mamba2020 / OpenLoopCLPass pop orders enter the SCC theorems as the `pick` parameter and "
          "their real schedules are checked through the proved-sound checkers.",
          "Lean 4 proof + differential correspondence check", "DESIGN.md §5 C11"),
